@@ -753,7 +753,79 @@ def rule_decode_variants(R):
     _r(R)
 
 
+def clause_property_cursor(R, prefix):
+    """The iterator over an encoded property block decodes one property per call and advances its cursor by what that
+    property occupied.  Two places have to agree on what the deserializer's byte count means: it is counted from where
+    the deserializer was started.  Either the deserializer is started on the tail `props[index..]` (count = bytes of this
+    item) and the cursor is advanced by it (`index += n`), or it is started at `index` inside the whole block (count =
+    absolute offset) and the cursor is set to it (`index = n`).  A deserializer started at `index` whose count is *added*
+    counts the offset twice: from the third property on the block is misread."""
+    f = R.f
+    nb = None
+    for b in f.bodies.values():
+        if b.fn_name == "next" and "PropertiesIter" in b.name and not f.in_fuzzing(b):
+            nb = b
+    if nb is None:
+        raise AnchorLost("properties-iter-next", "PropertiesIter::next not found")
+    R.touch(nb)
+    st = [(bb, nb.rvalue_term(rv), s_) for (bb, j, dst, rv, s_) in nb.stores()
+          if "@Encoded" in chain(nb.place_term(dst))[1] and chain(nb.place_term(dst))[1][-1:] == ["index"]]
+    ok, why = len(st) == 1, "expected one store to the cursor of the encoded form, found %d" % len(st)
+    if ok:
+        t = peel(st[0][1])
+        if t[0] == "field":
+            t = peel(t[1])
+        db = [x for x in walk(t) if isinstance(x, tuple) and is_call(x, "deserialized_bytes")]
+        added = t[0] == "bin" and t[1].startswith("Add") and any(chain(y)[1][-1:] == ["index"] and "@Encoded" in chain(y)[1] for y in (t[2], t[3]))
+        if len(db) != 1:
+            ok, why = False, "the cursor is not advanced by the deserializer's byte count (%s)" % show(t)[:100]
+        else:
+            de = peel(db[0][3][0])
+            start_rel = None      # True: started on the tail with count 0; False: started at `index` inside the whole block
+            if de[0] == "agg" and (de[2] or "").endswith("MqttDeserializer"):
+                fl = dict(zip(de[4], de[5]))
+                ix, buf = peel(fl.get("index", ("unknown",))), peel(fl.get("buf", ("unknown",)))
+                tail = is_call(buf, "Index::index", "index") and len(buf[3]) == 2 and peel(buf[3][1])[0] == "agg" and peel(buf[3][1])[4] == ["start"]
+                if ix[0] == "const" and ix[2] == 0 and tail:
+                    start_rel = True
+                elif chain(ix)[1][-1:] == ["index"] and not tail:
+                    start_rel = False
+            elif de[0] == "call" and de[3]:
+                # MqttDeserializer::new(&props[index..]) -- `new` starts the count at 0 (checked below)
+                buf = peel(de[3][0])
+                tail = is_call(buf, "Index::index", "index") and len(buf[3]) == 2 and peel(buf[3][1])[0] == "agg" and peel(buf[3][1])[4] == ["start"] \
+                    and chain(peel(buf[3][1])[5][0])[1][-1:] == ["index"]
+                nbody = f.bodies.get(de[2])
+                zero = False
+                if nbody is not None:
+                    for bb2, j2, s2 in nbody.assigns():
+                        if "agg" in s2["rv"] and (s2["rv"]["agg"].get("adt") or "").endswith("MqttDeserializer"):
+                            a2 = nbody.rvalue_term(s2["rv"])
+                            v2 = peel(dict(zip(a2[4], a2[5])).get("index", ("unknown",)))
+                            zero = v2[0] == "const" and v2[2] == 0
+                if tail and zero:
+                    start_rel = True
+            if start_rel is None:
+                ok, why = False, "cannot tell where the deserializer was started (%s)" % show(de)[:100]
+            elif start_rel != added:
+                ok, why = False, ("the deserializer is started at the cursor inside the whole block, so its count is an absolute "
+                                  "offset -- and that offset is added to the cursor" if added else
+                                  "the deserializer is started on the tail, so its count is relative -- and the cursor is set to it")
+        # deserialized_bytes is the cursor of the deserializer
+        dbn = roles.method(f, "de::deserializer::MqttDeserializer", "deserialized_bytes")
+        okg = chain(dbn.local_term(0))[1][-1:] == ["index"]
+        R.ob("%s/count-is-the-cursor" % prefix, okg, "MqttDeserializer::deserialized_bytes returns its cursor", where=dbn.span)
+    R.ob("%s/advance-matches-start" % prefix, ok,
+         "PropertiesIter::next advances by exactly the bytes of the property it decoded: the deserializer's count and the "
+         "cursor update agree on where counting started%s" % ("" if ok else " — " + why), where=nb.span)
+
+
+def rule_property_cursor(R):
+    clause_property_cursor(R, "props-iter")
+
+
 def run(R):
+    R.rule("props-iter", rule_property_cursor)
     R.rule("decode", rule_decode_variants)
     R.rule("panic", rule_panic)
     R.rule("unreachable", rule_unreachable)
